@@ -428,7 +428,7 @@ SeeFire(m, stk, md) ==
 RECURSIVE EnclSeeAll(_, _, _, _, _)
 EnclSeeAll(stk, vs, j, md, upto) == IF j > Len(vs) THEN stk ELSE EnclSeeAll(EnclSee(stk, vs[j], md, upto), vs, j + 1, md, upto)
 
-Fail(m) == /\ mem' = m /\ status' = "error" /\ UNCHANGED <<prog, mode, inp, inpd, stack, ret, out, gen>>
+Fail(m) == /\ mem' = m /\ status' = (IF m.err = "directive inside macro arguments" THEN "ub" ELSE "error") /\ UNCHANGED <<prog, mode, inp, inpd, stack, ret, out, gen>>
 Static == UNCHANGED <<prog, mode, inp, inpd, gen>>
 
 (* next(): do t = rawnext(); while (expand(t) || newline skipped) *)
@@ -626,7 +626,7 @@ TextLines(syms, i, cur) ==
   ELSE TextLines(syms, i + 1, Append(cur, syms[i]))
 
 SeqsUpTo(S, n) == UNION {[1..k -> S] : k \in 0..n}
-Def(n, fn, ps, syms) == Line("def", n, fn, ps, Body(syms))
+Def(n, fn, ps, syms) == Line("def", n, fn, ps, Body(SelectSeq(syms, LAMBDA y : y # "NL")))
 Undef(n) == Line("undef", n, FALSE, <<>>, <<>>)
 Text(syms) == TextLines(syms, 1, <<>>)
 
@@ -651,8 +651,8 @@ ProgSpace ==
     [] Space = "q1s" ->  \* quick variant of q1
        {<<a, b>> \o Text(<<"A">> \o s) :
           a \in DefsOf("A", {"B", "(", "1"}, {"A", "B", "x", "(", ")"}, {<<"x">>}, 2),
-          b \in DefsOf("B", {"A", "B", "("}, {"A", "x", "("}, {<<"x">>}, 1),
-          s \in SeqsUpTo({"(", ")", "A", "B", "1"}, 2)}
+          b \in DefsOf("B", {"A", "B", "("}, {"A", "x"}, {<<"x">>}, 1),
+          s \in SeqsUpTo({"(", ")", "B", "1"}, 2)}
     [] Space = "q2s" ->  \* quick variant of q2
        {<<Def("A", TRUE, <<"x">>, <<"x">>), b>> \o Text(s1) \o d \o Text(s2) :
           b \in {Def("B", FALSE, <<>>, <<"A">>), Def("B", TRUE, <<>>, <<"1">>)},
@@ -689,12 +689,19 @@ ProgSpace ==
                                                IN nm \in {"1"} \/ \E q \in 1..Len(ps) : ps[q] = nm},
                  s \in SeqsUpTo({"~)", "~,", "1", "~(", "G"}, 4)} :
               ps \in {<<"__VA_ARGS__">>, <<"x", "__VA_ARGS__">>, <<>>, <<"x", "y">>}}
+    [] Space = "q4s" ->  \* quick variant of q4
+       UNION {{<<Def("V", TRUE, ps, a), Def("G", TRUE, <<"p", "q">>, <<"q", "p">>)>> \o Text(<<"V", "~(">> \o s) :
+                 a \in {b \in {<<"#__VA_ARGS__", "__VA_ARGS__">>, <<"x", "__VA_ARGS__">>, <<"#x", "y">>, <<"1">>} :
+                          \A j \in 1..Len(b) : LET nm == IF Ch(b[j], 1) = "#" THEN SubSeq(b[j], 2, Len(b[j])) ELSE b[j]
+                                               IN nm \in {"1"} \/ \E q \in 1..Len(ps) : ps[q] = nm},
+                 s \in SeqsUpTo({"~)", "~,", "1", "~(", "G", "NL"}, 3)} :
+              ps \in {<<"__VA_ARGS__">>, <<"x", "__VA_ARGS__">>, <<>>, <<"x", "y">>}}
     [] Space = "redef" -> \* #define / #undef histories of one name, then a use
-       LET cand == {Def("A", FALSE, <<>>, <<"1", "+", "2">>), Def("A", FALSE, <<>>, <<"1", "~+", "~2">>),
-                    Def("A", FALSE, <<>>, <<"1", "+", "3">>), Def("A", FALSE, <<>>, <<"1", "+">>),
-                    Def("A", TRUE, <<"x">>, <<"x", "+", "2">>), Def("A", TRUE, <<"y">>, <<"y", "+", "2">>),
-                    Def("A", TRUE, <<"x">>, <<"x", "~+", "2">>), Def("A", TRUE, <<>>, <<"1", "+", "2">>),
-                    Def("A", TRUE, <<"x">>, <<"#x", "+", "2">>), Def("A", TRUE, <<"x", "y">>, <<"x", "+", "2">>),
+       LET cand == {Def("A", FALSE, <<>>, <<"(", "1", ")">>), Def("A", FALSE, <<>>, <<"(", "~1", "~)">>),
+                    Def("A", FALSE, <<>>, <<"(", "2", ")">>), Def("A", FALSE, <<>>, <<"(", "1">>),
+                    Def("A", TRUE, <<"x">>, <<"(", "x", ")">>), Def("A", TRUE, <<"y">>, <<"(", "y", ")">>),
+                    Def("A", TRUE, <<"x">>, <<"(", "~x", ")">>), Def("A", TRUE, <<>>, <<"(", "1", ")">>),
+                    Def("A", TRUE, <<"x">>, <<"(", "#x", ")">>), Def("A", TRUE, <<"x", "y">>, <<"(", "x", ")">>),
                     Undef("A")}
        IN {h \o Text(u) : h \in UNION {[1..k -> cand] : k \in 1..3}, u \in {<<"A">>, <<"A", "~(", "~5", "~)">>}}
 
@@ -779,16 +786,22 @@ RECURSIVE CExpr(_, _, _, _, _), COperand(_, _, _, _, _, _), CArgs(_, _, _, _, _,
 CExpr(P, names, ps, d, k) ==
   IF k = 0 THEN COperand(P, names, ps, d, R(100), R(1000))
   ELSE CExpr(P, names, ps, d, k - 1) \o <<PickFrom(COps, R(1000))>> \o COperand(P, names, ps, d, R(100), R(1000))
+IsStrDef(df) == df.k = "def" /\ df.fn /\ Len(df.b) = 2 /\ IsP(df.b[1], "#")
+IsKwDef(df) == df.k = "def" /\ ~df.fn /\ Len(df.b) = 1 /\ df.b[1].s = "int"
 CInv(P, names, ps, d, name) ==
   LET df == CurDef(P, name) IN
-  IF df.k = "def" /\ df.fn THEN <<name, "~(">> \o CArgs(P, names, ps, d, Len(df.ps), 1, <<>>) \o <<"~)">>
+  IF IsStrDef(df) \/ IsKwDef(df) THEN <<"5">>      \* not an integer operand by itself
+  ELSE IF df.k = "def" /\ df.fn THEN <<name, "~(">> \o CArgs(P, names, ps, d, Len(df.ps), 1, <<>>) \o <<"~)">>
   ELSE <<name>>
+(* a macro name without parentheses (a function-like one stays; the enum line declares it); nl: ends the line *)
+CBare(P, name, nl) ==
+  LET df == CurDef(P, name) IN
+  IF IsStrDef(df) \/ IsKwDef(df) THEN <<"6">> ELSE IF nl THEN <<name, "NL">> ELSE <<name>>
 COperand(P, names, ps, d, r, r2) ==
   IF r <= 25 \/ d = 0 THEN <<PickFrom(CNums, r2)>>
   ELSE IF r <= 45 /\ ps # <<>> THEN <<PickFrom(ps, r2)>>
   ELSE IF r <= 55 THEN <<"(">> \o CExpr(P, names, ps, d - 1, R(2)) \o <<"~)">>
-  ELSE IF r <= 60 THEN <<PickFrom(names, r2)>>
-  ELSE IF r <= 63 THEN <<PickFrom(names, r2), "NL">>
+  ELSE IF r <= 63 THEN CBare(P, PickFrom(names, r2), ps = <<>> /\ r > 60)
   ELSE CInv(P, names, ps, d - 1, PickFrom(names, r2))
 CArgs(P, names, ps, d, n, i, acc) ==
   IF i > n THEN acc
@@ -798,8 +811,6 @@ GenDefC(P, names, n, rk, np, rv) ==
   ELSE IF rk <= 38 THEN Def(n, FALSE, <<>>, <<"int">>)                       \* a keyword in a replacement list
   ELSE IF rk <= 48 THEN Def(n, TRUE, <<"x">>, <<"#x">>)                      \* used as  sizeof N(...)
   ELSE LET ps == ParamsOf(np, rv <= 20) IN Def(n, TRUE, ps, CExpr(P, names, ps, 2, R(3) - 1))
-IsStrDef(df) == df.k = "def" /\ df.fn /\ Len(df.b) = 2 /\ IsP(df.b[1], "#")
-IsKwDef(df) == df.k = "def" /\ ~df.fn /\ Len(df.b) = 1 /\ df.b[1].s = "int"
 (* operand usable in a text line *)
 CTextOperand(P, names, name, r) ==
   LET df == CurDef(P, name) IN
@@ -854,15 +865,18 @@ Spec == Init /\ [][Next]_vars
 BodyFrames(c) == Cardinality({i \in 1..Len(c) : c[i].r = "body"})
 Inv_Ctx ==
   status = "run" =>
-    /\ Len(mem.ctx) <= 2 * Cardinality(DOMAIN mem.mac) + 1
     /\ mem.md = BodyFrames(mem.ctx)
-    /\ \A n \in DOMAIN mem.mac : mem.pushes[n] - mem.pops[n] = (IF mem.mac[n].def /\ mem.mac[n].hide THEN 1 ELSE 0)
+    \* a macro is pushed only while not hidden and un-hidden exactly when its frame is dropped
+    \* (StaleDepth lets an invocation end inside a live nested expansion of the same macro: the discipline breaks)
+    /\ "StaleDepth" \notin mem.fired =>
+         /\ Len(mem.ctx) <= 2 * Cardinality(DOMAIN mem.mac) + 1
+         /\ \A n \in DOMAIN mem.mac : mem.pushes[n] - mem.pops[n] = (IF mem.mac[n].def /\ mem.mac[n].hide THEN 1 ELSE 0)
     /\ Len(stack) <= Len(inp) + 4   \* recursion of expand/expandfunc follows the nesting of invocations in the source
 Inv_End ==
   status = "ok" =>
     LET m == PopDone(mem) IN
     /\ m.md = 0 /\ Len(stack) = 1 /\ ("PendingReuse" \notin mem.fired => m.ctx = <<>>)
-    /\ \A n \in DOMAIN m.mac : ~m.mac[n].hide /\ m.pushes[n] = m.pops[n]
+    /\ \A n \in DOMAIN m.mac : m.pushes[n] = m.pops[n] /\ ("StaleDepth" \notin mem.fired => ~m.mac[n].hide)
 
 ModelOutcome ==
   LET idx == SelectSeq([i \in 1..Len(out) |-> i], LAMBDA i : out[i].k # "nl")
@@ -881,10 +895,10 @@ EmitCase(per, mo, tag) == IF EmitCases THEN PrintT("VCASE " \o ToJson(CaseRec(pe
 (* With Devs = {} a mismatch is a violated invariant; with deviations on it   *)
 (* is emitted (tag "dev") - the deviation changes behaviour on that program.  *)
 Inv_Conform ==
-  status \in {"ok", "error"} =>
+  status \in {"ok", "error", "ub"} =>
     LET per == Permitted(prog)
         mo == ModelOutcome IN
-    IF Excluded(per) THEN EmitCase(per, mo, "excl")
+    IF Excluded(per) \/ status = "ub" THEN EmitCase(per, mo, "excl")
     ELSE IF \E d \in per : Conf(mo, d) THEN EmitCase(per, mo, "ok")
     ELSE IF Devs = {} THEN FALSE
     ELSE EmitCase(per, mo, "dev")
